@@ -23,8 +23,10 @@
     ParseLocality / ParseEventData are modelled in Model/EventLog.v (C12) and
     re-used by DecodersCases.v.
 
-    Candidate fixes of the known findings are switchable ([fixes]); the
-    faithful model is [faithful] (all switches off).  No proofs here. *)
+    The repairs of the findings of this property (commits a533fa8, 84f1c2a,
+    f913973, 4423a4c, 6dfa3ec, 3c5bd57, 9c860bb) are switchable ([fixes]):
+    [faithful] is the code as it is (all checks present), [legacy] the code
+    before the repairs (what the theorems used to refute).  No proofs here. *)
 From CSS Require Import Lib.Base.
 
 (** * Part 1 — the reader monad *)
@@ -32,7 +34,7 @@ From CSS Require Import Lib.Base.
 Definition E_EOF   : Z := 1.  (* io.EOF *)
 Definition E_UEOF  : Z := 2.  (* io.ErrUnexpectedEOF *)
 Definition E_OTHER : Z := 3.  (* any error value built by the decoder itself *)
-Definition E_FIX   : Z := 4.  (* rejected by a candidate fix (never produced by [faithful]) *)
+Definition E_FIX   : Z := 4.  (* rejected by a length/size check added by the repairs (never produced by [legacy]) *)
 
 Record st : Type := mkSt { s_rest : list Z; s_alloc : Z; s_steps : Z }.
 
@@ -193,15 +195,25 @@ Definition bits (w lo n : Z) : Z := Z.land (Z.shiftr w lo) (Z.ones n).
 
 (** * Part 2 — the decoders *)
 
-(** switches for the candidate fixes of the known findings *)
+(** switches for the repairs of the findings *)
 Record fixes : Type := mkFx {
-  fx_custom_min : bool;  (* parsePolicyElementCustom: reject Size < 32 *)
-  fx_cap : bool          (* reject a count/size that exceeds the bytes left in the reader *)
+  fx_custom_min : bool;  (* 6dfa3ec: parsePolicyElementCustom rejects Size < 32 *)
+  fx_cap : bool;         (* 3c5bd57, 9c860bb: a count/size that exceeds the bytes left in the reader is rejected before make() *)
+  fx_bounds : bool       (* a533fa8, 84f1c2a, f913973, 4423a4c: offsets / lengths are checked before slicing *)
 }.
-Definition faithful : fixes := mkFx false false.
-Definition all_fixed : fixes := mkFx true true.
+(** the code as it is *)
+Definition faithful : fixes := mkFx true true true.
+(** the code before the repairs *)
+Definition legacy : fixes := mkFx false false false.
 
-(** [if fx_cap && n > buf.Len() { return error }] *)
+(** [bytes.NewReader(data[off:])] behind a bounds check: pkg/registers slices
+    through [TXTConfigSpace.from] (empty when off > len), pkg/tools seeks; an
+    image that ends before [off] gives an exhausted reader (the read returns
+    io.EOF).  Before the repairs the bare slice expression panicked. *)
+Definition slice_at (fx : fixes) (whole : list Z) (off : Z) : rd unit :=
+  if fx_bounds fx then seek whole off else slice_from whole off.
+
+(** [if n > buf.Len() { return error }] (absent before the repairs) *)
 Definition cap_guard (fx : fixes) (n : Z) : rd unit := fun s =>
   if fx_cap fx && negb (has_len (s_rest s) n) then RErr E_FIX s else ROk tt s.
 
@@ -289,7 +301,8 @@ Definition elt_pconf : rd (list Z) :=
   is <- repeat_n n pcr_info ;;
   ret (n :: is).
 
-(** parsePolicyElementCustom(buf, int(Size)-16, pol): make([]byte, size-16) *)
+(** parsePolicyElementCustom(buf, int(Size)-16, pol): [if size < 16 { error }]
+    (6dfa3ec), [if size-16 > buf.Len() { error }] (3c5bd57), make([]byte, size-16) *)
 Definition elt_custom (fx : fixes) (size : Z) : rd (list Z) :=
   d1 <- read_le 4 ;; d2 <- read_le 2 ;; d3 <- read_le 2 ;; d4 <- read_le 2 ;; d5 <- read_n 6 ;;
   let n := size - 16 - 16 in
@@ -347,15 +360,17 @@ Definition policy_data (fx : fixes) : rd (list Z) :=
 
 (** ** pkg/tools/acm.go *)
 
-(** LookupACMSize(header): header[:32] (the harness passes cap = len),
-    Seek(24), uint32, [int64(acmSize * 4)] computed in uint32 *)
-Definition lookup_acm_size (header : list Z) : rd (list Z) :=
+(** LookupACMSize(header): [if len(header) < 32 { error }] (f913973; before it
+    header[:32] panicked, the harness passes cap = len), Seek(24), uint32,
+    [int64(acmSize * 4)] computed in uint32 *)
+Definition lookup_acm_size (fx : fixes) (header : list Z) : rd (list Z) :=
   if has_len header 32 then
     seek (firstn 32 header) 24 ;;; v <- read_le 4 ;; ret [wrap32 (v * 4)]
-  else panic.
+  else if fx_bounds fx then fail E_FIX else panic.
 
 (** ACM.ParseACMInfo: [user] = Header.UserArea (the reader starts there),
-    [total] = the Size*4 bytes Header.Write produced *)
+    [total] = the Size*4 bytes Header.Write produced; the two ID lists are
+    checked against the bytes left in the module before make() (9c860bb) *)
 Definition acm_info (fx : fixes) (total : list Z) : rd (list Z) :=
   info <- read_n 48 ;;
   let cs := le_val (firstn 4 (skipn 20 info)) in
@@ -377,10 +392,10 @@ Definition txt_status_fields (u : Z) : list Z :=
 Definition txt_errorcode_fields (u : Z) : list Z :=
   [bits u 0 4; bits u 4 6; bits u 10 5; bit u 15; bits u 16 12; bits u 28 2; bit u 30; bit u 31].
 
-Definition parse_txt_regs (data : list Z) : rd (list Z) :=
+Definition parse_txt_regs (fx : fixes) (data : list Z) : rd (list Z) :=
   sts <- read_le 8 ;;                                   (* readTXTStatus: NewReader(data) *)
-  slice_from data 48 ;;; ec <- read_le 4 ;;             (* readTXTErrorCode: data[0x30:] *)
-  slice_from data 816 ;;; dpr <- read_le 4 ;;           (* readDMAProtectedRange: data[0x330:] *)
+  slice_at fx data 48 ;;; ec <- read_le 4 ;;            (* readTXTErrorCode: Seek(0x30) (84f1c2a; was data[0x30:]) *)
+  slice_at fx data 816 ;;; dpr <- read_le 4 ;;          (* readDMAProtectedRange: Seek(0x330) (was data[0x330:]) *)
   seek data 8 ;;; rst <- read_le 1 ;;                   (* TxtReset = bit 0 of TXT.ESTS (fix 28e1a56) *)
   seek data 160 ;;; bs <- read_le 8 ;;
   seek data 256 ;;; fsb <- read_le 4 ;;
@@ -409,8 +424,9 @@ Definition parse_bios_data : rd (list Z) :=
          else ret [0; 0; 0; 0; 0]) ;;
   ret ([ver; ssz; r1; r2; nl; sf] ++ mf).
 
-Definition read_acm_status (data : list Z) : rd (list Z) :=
-  slice_from data 808 ;;; u <- read_le 8 ;;
+(** ReadACMStatus: Seek(0x328) (84f1c2a; was data[0x328:]) *)
+Definition read_acm_status (fx : fixes) (data : list Z) : rd (list Z) :=
+  slice_at fx data 808 ;;; u <- read_le 8 ;;
   ret [bit u 31; bits u 16 12; bit u 15; bits u 10 5; bits u 4 6; bits u 0 4].
 
 Definition read_raw64_at (data : list Z) (off : Z) : rd (list Z) :=
@@ -418,8 +434,9 @@ Definition read_raw64_at (data : list Z) (off : Z) : rd (list Z) :=
 
 (** ** pkg/registers: Read* and ReadTXTRegisters *)
 
-(** (offset, width in bytes, slices [data[off:]] (true) or seeks (false)), in
-    the order of [supportedTXTRegistersIDs] *)
+(** (offset, width in bytes, slices [data.from(off)] -- before a533fa8
+    [data[off:]] -- (true) or seeks (false)), in the order of
+    [supportedTXTRegistersIDs] *)
 Definition txt_reg_table : list (Z * Z * bool) :=
   [ (888, 8, false)   (* ACM_POLICY_STATUS: Seek *)
   ; (808, 4, true)    (* ACM_STATUS *)
@@ -445,31 +462,31 @@ Definition reg_summary (v : list Z) : list Z :=
   if lenZ v =? 32 then 32 :: v else [1; le_val v].
 
 (** one Read* function *)
-Definition read_reg (data : list Z) (e : Z * Z * bool) : rd (list Z) :=
+Definition read_reg (fx : fixes) (data : list Z) (e : Z * Z * bool) : rd (list Z) :=
   let '(off, w, sl) := e in
-  (if sl then slice_from data off else seek data off) ;;; v <- read_n w ;; ret (reg_summary v).
+  (if sl then slice_at fx data off else seek data off) ;;; v <- read_n w ;; ret (reg_summary v).
 
-Definition read_reg_k (data : list Z) (k : Z) : rd (list Z) :=
+Definition read_reg_k (fx : fixes) (data : list Z) (k : Z) : rd (list Z) :=
   match nth_error txt_reg_table (Z.to_nat k) with
-  | Some e => read_reg data e
+  | Some e => read_reg fx data e
   | None => fail E_OTHER
   end.
 
 (** ReadTXTRegisters: a failing fetch is recorded and skipped; an error is
     returned (beside the registers fetched) when at least one fetch failed *)
-Fixpoint read_txt_loop (data : list Z) (tbl : list (Z * Z * bool)) (nerr : Z) (racc : list Z) : rd (list Z) := fun s =>
+Fixpoint read_txt_loop (fx : fixes) (data : list Z) (tbl : list (Z * Z * bool)) (nerr : Z) (racc : list Z) : rd (list Z) := fun s =>
   match tbl with
   | [] => if 0 <? nerr then RErr E_OTHER s else ROk (rev racc) s
   | e :: t =>
-      match read_reg data e s with
-      | ROk v s' => read_txt_loop data t nerr (rev_append v racc) s'
-      | RErr _ s' => read_txt_loop data t (nerr + 1) racc s'
+      match read_reg fx data e s with
+      | ROk v s' => read_txt_loop fx data t nerr (rev_append v racc) s'
+      | RErr _ s' => read_txt_loop fx data t (nerr + 1) racc s'
       | RPanic => RPanic
       | RFuel => RFuel
       end
   end.
-Definition read_txt_registers (data : list Z) : rd (list Z) :=
-  read_txt_loop data txt_reg_table 0 [].
+Definition read_txt_registers (fx : fixes) (data : list Z) : rd (list Z) :=
+  read_txt_loop fx data txt_reg_table 0 [].
 
 (** ** pkg/registers/marshalling.go: ValueFromBytes *)
 
@@ -770,11 +787,13 @@ Definition bytes_range (len start fin : Z) : rd (list Z) :=
   if e1 || e2 || e3 then fail E_OTHER else ret [].
 
 (** ** pkg/provisioning/bootguard/keygen.go: DecryptPrivKey, framing only.
-    With a password: [data[:12]] / [data[12:]] (cap = len in the harness);
-    AES-GCM, PEM and PKCS#8 are third-party and not modelled: a non-panicking
-    run is reported as [Err]/[Ok] by them, the model says [Ok []]. *)
-Definition decrypt_frame (has_pw : bool) (data : list Z) : rd (list Z) :=
-  if has_pw then (if has_len data 12 then ret [] else panic) else ret [].
+    With a password: [if len(data) < 12 { error }] (4423a4c), then
+    [data[:12]] / [data[12:]] (which panicked on shorter data before; cap = len
+    in the harness); AES-GCM, PEM and PKCS#8 are third-party and not modelled:
+    a non-panicking run is reported as [Err]/[Ok] by them, the model says
+    [Ok []] or the length error. *)
+Definition decrypt_frame (fx : fixes) (has_pw : bool) (data : list Z) : rd (list Z) :=
+  if has_pw then (if has_len data 12 then ret [] else if fx_bounds fx then fail E_FIX else panic) else ret [].
 
 (** parsePrivateKey (behind DecryptPrivKey) and ReadPubKey: the loop over the
     PEM blocks of the file.  [decode] stands for encoding/pem.Decode (third
